@@ -127,9 +127,13 @@ def r2(ctx, prog, ev, rep):
     mir_asserts = 0
     thir_arith_by_fn = {}
     grammar_min = None
+    from vflib import terms as _terms
+    unfolded = set(_terms.UNFOLD or ())
     for p in tops:
         if prog.is_expansion(p):
             continue
+        if p in unfolded and not prog.items[p].get("exported"):
+            continue        # a private helper that is unfolded at every call site: its operations are examined there, in context
         fam = [p] + prog.closures_in(p)
         # MIR cross-check: number of overflow/bounds asserts in the family
         ma = 0
@@ -365,6 +369,35 @@ def prove_index(prog, ev, iv, fn, term, pc, ctx):
             if f[0] == "call" and f[1].endswith("::is_empty") and f[2] and f[2][0] == A and f[3] is False and c == 0:
                 return True, "!is_empty() dominates index 0"
         return False, "no dominating fact bounds the length of `%s` above %d" % (_short(A), c)
+    # (b0) the index is the payload of an Option computed by a conditional: every `Some(x)` leaf must be in bounds under the
+    #      conditions that lead to it (the `None` leaves never reach the indexing)
+    Xp = uncasted(I)
+    if Xp.k == "proj" and Xp.a[1] == "Option::Some.0" and Xp.a[0].k in ("if", "match"):
+        leaves = []
+
+        def walk(t, extra):
+            if t.k == "if":
+                walk(t.a[1], extra + (("if", t.a[0], True),))
+                walk(t.a[2], extra + (("if", t.a[0], False),))
+            elif t.k == "match":
+                for p_, g_, b_ in t.a[1]:
+                    walk(b_, extra + ((("if", g_, True),) if g_ is not None else ()))
+            elif t.k == "adt" and t.a[1] == "Some":
+                leaves.append((extra, t.a[2][0][1]))
+            elif t.k == "adt" and t.a[1] == "None":
+                pass
+            else:
+                leaves.append((extra, None))
+        walk(Xp.a[0], ())
+        if leaves and all(v is not None for _, v in leaves):
+            whys = []
+            for extra, v in leaves:
+                sub = Tm("call", (term.a[0], A, v)) if term.k == "call" else Tm("index", (A, v))
+                ok_, why_ = prove_index(prog, ev, iv, fn, sub, tuple(pc) + extra, ctx)
+                if not ok_:
+                    return False, "for the leaf `%s`: %s" % (_short(v), why_)
+                whys.append(why_)
+            return True, "every Some(..) leaf of the computed index: " + "; ".join(sorted(set(whys)))
     # (b) I = X as usize with 0 <= X and X < len(A)
     X = uncasted(I)
     lo_ok = iv.iv(X, pc)[0] >= 0
